@@ -1,17 +1,13 @@
--- GENERATED by /verif/extract from the working tree of paulmach/osm. Do not edit.
-namespace OsmVerif.Gen.Schema
+import OsmVerif.Gen.Schema
+/-! Pinned vocabulary: the element / attribute names of OSM XML (https://wiki.openstreetmap.org/wiki/OSM_XML,
+API v0.6 responses for changesets, notes and users, osmChange, augmented diffs as written by this
+library) and the keys of Overpass/OSM-API osmjson, per Go struct field. Written out once (reviewed
+name by name against the formats) and kept by hand — NOT regenerated. `Props.C03.names_eq_osm_xml`
+compares the regenerated schema with it. -/
+namespace OsmVerif.Spec.OsmSchema
+open OsmVerif.Gen.Schema
 
-def extractOk : Bool := true
-def extractErrors : List String := []
-
-structure Field where
-  name : String
-  type : String
-  xml : String
-  json : String
-  deriving DecidableEq, Repr
-
-def structs : List (String × List Field) := [
+def pinnedStructs : List (String × List Field) := [
   ("Action", [
     ⟨"Type", "ActionType", "type,attr", ""⟩,
     ⟨"*OSM", "*OSM", ",omitempty", ""⟩,
@@ -246,27 +242,5 @@ def structs : List (String × List Field) := [
   ])
 ]
 
-def namedTypes : List String := ["ActionType=string", "Actions=[]Action", "ChangesetID=int64", "Changesets=[]*Changeset", "ElementID=int64", "ElementIDs=[]ElementID", "Elements=[]Element", "FeatureID=int64", "FeatureIDs=[]FeatureID", "Members=[]Member", "NodeID=int64", "Nodes=[]*Node", "NoteCommentAction=string", "NoteID=int64", "NoteStatus=string", "Notes=[]*Note", "ObjectID=int64", "ObjectIDs=[]ObjectID", "Objects=[]Object", "RelationID=int64", "Relations=[]*Relation", "Tags=[]Tag", "Type=string", "Updates=[]Update", "UserID=int64", "Users=[]*User", "WayID=int64", "WayNodes=[]WayNode", "Ways=[]*Way", "conditionType=string", "elementIDsSort=ElementIDs", "elementsSort=Elements", "featureIDsSort=FeatureIDs", "nocopyRawMessage=[]byte", "nodesSort=Nodes", "relationsSort=Relations", "tagsSort=Tags", "updatesSortIndex=Updates", "updatesSortTS=Updates", "waysSort=Ways", "xmlNameJSONTypeCS=xml.Name", "xmlNameJSONTypeNode=xml.Name", "xmlNameJSONTypeNote=xml.Name", "xmlNameJSONTypeRel=xml.Name", "xmlNameJSONTypeUser=xml.Name", "xmlNameJSONTypeWay=xml.Name"]
 
-def customMethods : List String := ["Action.MarshalXML", "Action.UnmarshalXML", "Change.MarshalXML", "ChangesetDiscussion.MarshalXML", "Date.MarshalJSON", "Date.MarshalXML", "Date.UnmarshalXML", "Members.MarshalJSON", "OSM.MarshalJSON", "OSM.MarshalXML", "OSM.UnmarshalJSON", "Tags.MarshalJSON", "Tags.UnmarshalJSON", "WayNodes.MarshalJSON", "WayNodes.UnmarshalJSON", "nocopyRawMessage.UnmarshalJSON", "xmlNameJSONTypeCS.MarshalJSON", "xmlNameJSONTypeCS.UnmarshalJSON", "xmlNameJSONTypeNode.MarshalJSON", "xmlNameJSONTypeNode.UnmarshalJSON", "xmlNameJSONTypeNote.MarshalJSON", "xmlNameJSONTypeNote.UnmarshalJSON", "xmlNameJSONTypeRel.MarshalJSON", "xmlNameJSONTypeRel.UnmarshalJSON", "xmlNameJSONTypeUser.MarshalJSON", "xmlNameJSONTypeUser.UnmarshalJSON", "xmlNameJSONTypeWay.MarshalJSON", "xmlNameJSONTypeWay.UnmarshalJSON"]
-
-def marshalInnerXMLCalls : List String := ["e.Encode(o.Bounds)", "e.Encode(o.Nodes)", "e.Encode(o.Ways)", "e.Encode(o.Relations)", "e.Encode(o.Changesets)", "e.Encode(o.Notes)", "e.Encode(o.Users)"]
-def marshalInnerElementsXMLCalls : List String := ["e.Encode(o.Nodes)", "e.Encode(o.Ways)", "e.Encode(o.Relations)"]
-def osmMarshalXMLCalls : List String := ["e.EncodeToken(start)", "o.marshalInnerXML(e)", "e.EncodeToken(start.End())"]
-def changeMarshalXMLCalls : List String := ["e.EncodeToken(start)", "marshalInnerChange(e, \"create\", c.Create)", "marshalInnerChange(e, \"modify\", c.Modify)", "marshalInnerChange(e, \"delete\", c.Delete)", "e.EncodeToken(start.End())"]
-def marshalInnerChangeCalls : List String := ["e.EncodeToken(t)", "o.marshalInnerXML(e)", "e.EncodeToken(t.End())"]
-def actionMarshalXMLCalls : List String := ["e.EncodeToken(start)", "a.OSM.marshalInnerElementsXML(e)", "marshalInnerChange(e, \"old\", a.Old)", "marshalInnerChange(e, \"new\", a.New)", "e.EncodeToken(start.End())"]
-def discussionMarshalXMLCalls : List String := ["e.EncodeToken(start)", "e.EncodeElement(csd.Comments, t)", "e.EncodeToken(start.End())"]
-
-def osmMarshalXMLNames : List String := ["osm", "", "version", "", "generator", "", "copyright", "", "attribution", "", "license"]
-def changeMarshalXMLNames : List String := ["osmChange", "", "version", "", "generator", "", "copyright", "", "attribution", "", "license", "create", "modify", "delete"]
-def actionMarshalXMLNames : List String := ["type", "old", "new"]
-def discussionMarshalXMLNames : List String := ["comment"]
-
-def actionUnmarshalCases : List String := ["old", "new", "node", "way", "relation"]
-def osmUnmarshalJSONCases : List String := ["node", "way", "relation", "changeset", "note", "user"]
-def scannerCases : List String := ["bounds", "node", "way", "relation", "changeset", "note", "user"]
-def objectsOrder : List String := ["o.Bounds", "o.Nodes", "o.Ways", "o.Relations", "o.Changesets", "o.Users", "o.Notes"]
-def jsonTypeShims : List String := ["xmlNameJSONTypeCS=\"changeset\"", "xmlNameJSONTypeNode=\"node\"", "xmlNameJSONTypeNote=\"note\"", "xmlNameJSONTypeRel=\"relation\"", "xmlNameJSONTypeUser=\"user\"", "xmlNameJSONTypeWay=\"way\""]
-
-end OsmVerif.Gen.Schema
+end OsmVerif.Spec.OsmSchema
